@@ -2954,7 +2954,7 @@ def transform_compressible(items, constants, labels):
             # be judged on them: any other immediate has to be label-free
             # (the same goes for the position: items in front may still shrink,
             # so %offset of anything is off limits for them as well)
-            if name in ['c.j', 'c.jal', 'c.beqz', 'c.bnez']:
+            if name in ['c.j', 'c.jal', 'c.beqz', 'c.bnez'] and isinstance(getattr(item, 'imm', None), Offset):
                 # (labels only: a constant as target is an absolute address
                 # that gets further away when the code in front shrinks)
                 pred_env = labels
@@ -2962,6 +2962,9 @@ def transform_compressible(items, constants, labels):
                     pred_env = {k: v for k, v in labels.items() if k not in constants}
                 pred_position = position
             else:
+                # (that includes a jump whose displacement is written as an
+                # expression: a value like "label - 2052" does not get closer,
+                # one like "K * 2" does not depend on the layout at all)
                 pred_env = constants
                 pred_position = None
             try:
